@@ -260,7 +260,7 @@ class AddressAg(AddressBase):
             self._type = "host"
             self._wildcard = Wildcard(wildcard, platform=self._platform, max_ncwb=self.max_ncwb)
 
-        elif self._platform == "ios":
+        elif self._platform in ("ios", "asa"):  # subnet mask, as for "A.B.C.D A.B.C.D" in the line setter
             subnet = ipnet.with_netmask.replace("/", " ")
             self._line__subnet(subnet)
 
